@@ -86,7 +86,10 @@ StateViol(ev) ==
   \cup Chk("C09_Lifecycle",
            (b.st # t.st /\ ~ev.forced /\ ~Opt.manual /\ ~(Opt.faults /\ "_submit_task_job_callback" \in ev.cx)
             /\ id \notin env.tainted)
-              => IF env.restarted \/ Opt.faults THEN Lifecycle(b.st, t.st, inRetry) ELSE LifecycleStrict(b.st, t.st, inRetry))
+              => IF env.restarted THEN Lifecycle(b.st, t.st, inRetry)
+                 ELSE \/ LifecycleStrict(b.st, t.st, inRetry)
+                      \* a job whose submission was wrongly reported as failed turns out to be alive
+                      \/ (Opt.faults /\ b.st = "submit-failed" /\ t.st \in {"running", "succeeded", "failed"}))
   \* recorded separately (known finding): the result of a jobs-submit command that arrives after the task has
   \* moved on to a later submit number is applied to the current job (the callback looks the task up by its
   \* current submit number)
@@ -248,7 +251,8 @@ DbRows(ev) == Range(ev.dbpool)
 Scalars(ev) == [stop_point |-> ev.stop_point, hold_point |-> ev.hold_point, tasks_to_hold |-> ev.tasks_to_hold,
                 flow_counter |-> ev.flow_counter, stop_task |-> ev.stop_task]
 LoopEndViol(ev) ==
-     Chk("C26_CacheIsTruth", Range(ev.cached) = SyncIds(ev) /\ Len(ev.cached) = Cardinality(SyncIds(ev)))
+     Chk("C26_CacheIsTruth", Range(ev.cached) = SyncIds(ev) /\ Len(ev.cached) = Cardinality(SyncIds(ev))
+                               /\ ev.cache_identical)   \* the very same proxies, not stale look-alikes
   \cup Chk("C26_NoDuplicateProxy", ev.dup = {} /\ Len(ev.pool) = Cardinality(SyncIds(ev)))
   \cup Chk("C26_NoEmptyBucket", ev.empty_buckets = {} /\ ev.buckets = {Pt(i) : i \in SyncIds(ev)})
   \cup Chk("C26_DbPoolMatches",
@@ -276,6 +280,24 @@ LoopEndCov(ev) ==
   \cup Cov("C45_AfterRestart",
            env.restarted /\ \E i \in SyncIds(ev) : \E L \in Deps(W, Name(i), Pt(i)) : \E a \in Atoms(L.lhs) :
               a.abs /\ AtomKey(W, a, Pt(i)) \in done)
+
+\* ds_update: the published data store after Scheduler.update_data_structure
+StoreOK(ev, m, i) ==
+  LET s == SyncRec(ev, i) IN
+     /\ i \in DOMAIN m /\ m[i].present
+     /\ m[i].st = s.st /\ m[i].held = s.held /\ m[i].queued = s.queued /\ m[i].rh = s.rh
+     /\ m[i].flows = s.flows /\ m[i].outs = s.outs /\ m[i].preok = s.preok
+DsViol(ev) ==
+     Chk("C25_StoreMatchesPool", \A i \in SyncIds(ev) : StoreOK(ev, ev.store, i)
+                                    \/ PrintT(<<"DIAG", tid, "store", i, SyncRec(ev, i),
+                                                IF i \in DOMAIN ev.store THEN ev.store[i] ELSE "absent">>) = FALSE)
+  \cup Chk("C25_ClientConverges", ev.diffclass \in {"none", "dup-edge-refs"} /\ ev.checksum_ok)
+  \* recorded separately (known finding): the client ends up with repeated entries in a node's list of edge ids
+  \cup Chk("C25_ClientConverges_DuplicateEdgeRefs", ev.diffclass # "dup-edge-refs")
+  \cup Chk("C25_ClientMatchesPool", DOMAIN ev.client # {} => \A i \in SyncIds(ev) : StoreOK(ev, ev.client, i))
+DsCov(ev) == Cov("C25_StoreMatchesPool", SyncIds(ev) # {}) \cup Cov("C25_ClientConverges", DOMAIN ev.client # {})
+             \cup Cov("C25_StoreMatchesPool_Held", \E i \in SyncIds(ev) : SyncRec(ev, i).held)
+             \cup Cov("C25_StoreMatchesPool_MultiFlow", \E i \in SyncIds(ev) : Cardinality(SyncRec(ev, i).flows) > 1)
 
 \* commands
 AllAtomKeysT(t, p) == {AtomKey(W, a, p) : a \in UNION {Atoms(L.lhs) : L \in Deps(W, t, p)}}
@@ -397,6 +419,17 @@ StallViol(ev) ==
   \A i \in SyncIds(ev) : LET s == SyncRec(ev, i) IN
      /\ s.st \notin ActiveStatuses
      /\ ~(s.st = "waiting" /\ ~s.rh /\ s.preok /\ ~s.held /\ s.xok /\ Pt(i) <= StopPt)
+
+\* quiescent: the environment has nothing more to deliver and three idle main-loop iterations have passed.
+\* Unless paused / stopping, no task that is ready may be left unsubmitted (C03 starvation clause).
+QActiveIn(ev, q) == Cardinality({j \in SyncIds(ev) : QueueOf(W, Name(j)) = q /\ SyncRec(ev, j).st \in ActiveStatuses})
+Starved(ev, i) ==
+  LET s == SyncRec(ev, i)  q == QueueOf(W, Name(i)) IN
+     /\ s.st = "waiting" /\ ~s.rh /\ s.preok /\ s.xok /\ ~s.held /\ Pt(i) <= StopPt
+     /\ (QueueLimit(W, q) = 0 \/ QActiveIn(ev, q) < QueueLimit(W, q))
+QuiescentViol(ev) ==
+  Chk("C03_NoStarvation", (~ev.paused /\ ~Opt.stopreq) => \A i \in SyncIds(ev) : ~Starved(ev, i))
+QuiescentCov(ev) == Cov("C03_NoStarvation", ~ev.paused /\ ~Opt.stopreq /\ SyncIds(ev) # {})
 
 \* end of run: closure (only when nothing ended incomplete and the scheduler stopped by itself)
 Launched == {i \in DOMAIN hist : hist[i].n > 0}
@@ -568,7 +601,9 @@ Violations(ev) ==
     [] ev.e = "stall" -> Chk("C03_StallIsReal", StallViol(ev))
     [] ev.e = "end" -> EndViol(ev)
     [] ev.e = "boot" -> BootViol(ev)
+    [] ev.e = "quiescent" -> QuiescentViol(ev)
     [] ev.e = "merge" -> MergeViol(ev)
+    [] ev.e = "ds_update" -> DsViol(ev)
     [] ev.e = "flow" -> FlowViol(ev)
     [] ev.e = "cmd_done" -> CmdDoneViol(ev) \cup ReloadQueuedViol(ev)
     [] ev.e = "restored" -> RestoredViol(ev)
@@ -588,6 +623,8 @@ Covered(ev) ==
     [] ev.e = "stall" -> {"C03_StallIsReal"}
     [] ev.e = "end" -> EndCov(ev)
     [] ev.e = "boot" -> BootCov(ev)
+    [] ev.e = "quiescent" -> QuiescentCov(ev)
+    [] ev.e = "ds_update" -> DsCov(ev)
     [] ev.e = "merge" -> Cov("C08_MergeIsUnion", ev.added # {} /\ ev.added # ev.before)
     [] ev.e = "flow" -> Cov("C08_NewFlowIsFresh", ev.asked = -1 /\ env.flowsEver # {})
     [] ev.e = "cmd_done" -> CmdDoneCov(ev)
